@@ -441,10 +441,11 @@ Proof.
   2: { destruct e; exact I. }
   2: { now apply get_opcode_no_oof in E. }
   apply get_opcode_advances in E. cbn [lift vbind].
-  break_if; [exact I|]. break_if; [exact I|]. break_if; [exact I|].
+  break_if; [exact I|]. break_if; [exact I|].
   eapply good_bind with (P := post (pc', st_cond s)).
   { break_if; [apply handler_post; split; reflexivity|split; [reflexivity|left; reflexivity]]. }
-  intros s2 [H2 H3]. break_if; [exact I|]. cbn [good]. cbn [fst snd] in H2, H3. split; [lia|exact H3].
+  intros s2 [H2 H3]. break_if; [exact I|]. break_if; [exact I|].
+  cbn [good]. cbn [fst snd] in H2, H3. split; [lia|exact H3].
 Qed.
 
 Theorem step_advances_pc s s' : step' s = VOk s' -> (st_pc s < st_pc s')%nat.
@@ -463,14 +464,15 @@ Proof.
   destruct (btc_get_opcode script (st_pc s) false) as [[[[opcode data] pc'] is_ok]|e|]; cbn [lift vbind].
   2: { destruct e; discriminate. }
   2: discriminate.
-  break_if; [discriminate|]. break_if; [discriminate|]. break_if; [discriminate|].
+  break_if; [discriminate|]. break_if; [discriminate|].
   assert (Hstk : match data with Some d => st_stack s | None => st_stack s end = st_stack s) by (destruct data; reflexivity).
   rewrite Hstk. clear Hstk.
   set (s1 := mkst pc' (st_stack s) (st_alt s) (st_cond s) _ (st_bch s)).
   assert (Hfin : forall s2, st_stack s2 = st_stack s /\ st_alt s2 = st_alt s /\ st_bch s2 = st_bch s ->
-            (if (Z.of_N MAX_OP_COUNT <? st_opc s2)%Z then VFail else VOk s2) = VOk s' ->
+            (if (Z.of_N MAX_OP_COUNT <? st_opc s2)%Z then VFail
+             else if negb (check_stack_size s2) then VFail else VOk s2) = VOk s' ->
             st_stack s' = st_stack s /\ st_alt s' = st_alt s /\ st_bch s' = st_bch s).
-  { intros s2 H2. break_if; [discriminate|]. intros E; inversion E; subst; exact H2. }
+  { intros s2 H2. break_if; [discriminate|]. break_if; [discriminate|]. intros E; inversion E; subst; exact H2. }
   destruct (hk opcode) eqn:Hk; cbn [hk_outside handler vbind];
     try (apply Hfin; repeat split; reflexivity); try discriminate.
   - (* KReserved *) subst s1. cbn [st_cond]. rewrite Hd. cbn [vbind]. apply Hfin. repeat split; reflexivity.
